@@ -202,6 +202,12 @@ def _expr(draw, ty, depth, ivars):
         b_ = draw(st.sampled_from(["v", "w", "b_"]))
         return (f"Aggregate({draw(_expr('S', depth - 1, ivars))}, {draw(_expr('I', depth - 1, ivars))}, "
                 f"lambda a_, {b_}: a_ + {draw(_expr('I', depth - 1, ivars + [b_]))})")
+    if k == 11 and draw(st.booleans()):
+        # a shortcut as the DEFAULT VALUE of a lambda parameter (positional or keyword-only): lowered like anywhere else
+        name = draw(st.sampled_from(NAMES))
+        seq = draw(_expr("S", depth - 1, ivars))
+        star = draw(st.sampled_from(["", "*, "]))
+        return f"(lambda q_, {star}n_={name}({seq}): n_ + q_)({draw(_expr('I', depth - 1, ivars))})"
     if k == 9:  # bare reference
         return f"keep({draw(st.sampled_from(NAMES))}, {draw(_expr('I', depth - 1, ivars))})"
     if k == 10:
